@@ -55,18 +55,20 @@ class IdleHandshakeHandler(Elaboratable):
         data_word = self.sink.data
         ctrl_word = self.sink.ctrl
 
-        # Capture the previous data word; so we have a record of eight consecutive signals.
+        # Capture the previous valid data word; so we have a record of eight consecutive signals.
+        # Before any word has been received, the record must not read as logical idle.
         last_word = Signal.like(data_word)
-        last_ctrl = Signal.like(ctrl_word)
-        m.d.ss += [
-            last_word.eq(data_word),
-            last_ctrl.eq(ctrl_word),
-        ]
+        last_ctrl = Signal.like(ctrl_word, init=0b1111)
+        with m.If(self.sink.valid):
+            m.d.ss += [
+                last_word.eq(data_word),
+                last_ctrl.eq(ctrl_word),
+            ]
 
         # Logical idle descrambles to the raw data value zero; so we only need to validate that
-        # the last and current words are both zeroes.
+        # the last and current valid words are both zeroes.
         last_word_was_idle   = (last_word == 0) & (last_ctrl == 0)
-        current_word_is_idle = (data_word == 0) & (ctrl_word == 0)
+        current_word_is_idle = self.sink.valid & (data_word == 0) & (ctrl_word == 0)
         m.d.comb += [
             self.idle_detected  .eq(last_word_was_idle & current_word_is_idle)
         ]
